@@ -132,7 +132,7 @@ def run_C03(ctx):
 
 
 def run_C12(ctx):
-    ref_run(ctx, "journalpair", ["journalpair", "--n", n_cases(ctx, 5000, 300000)],
+    ref_run(ctx, "journalpair", ["journalpair", "--n", n_cases(ctx, 5000, 60000)],
             "program pairs of equal length on the real EVM: journal opcode (+ n-1 JUMPDESTs) vs n POPs; return data, post-state, logs, control flow and stack heights must agree, gas must differ by exactly 800+(n-1)-2n per executed site; malformed sites must halt exceptionally",
             nontrivial=lambda c: c.get("journal_sites_executed", 0) >= 1, oracle_prefix="C12")
     corr_run(ctx, "journal", ["journal", "--n", n_cases(ctx, 1200, 60000)],
